@@ -438,3 +438,41 @@ _C05_GUARDS = [
 def c05_k(ctx):
     from .base import check_guard_table
     check_guard_table(ctx, _C05_GUARDS)
+
+
+@obligation('C05-l', 'T1 T13', 'a new pool never adopts files that are already there: every place '
+            'that gives the pool its name (the constructor, and the default name derived from the '
+            'seed when the context is set) goes on to refuse a path that exists', floor=2,
+            necessary='the files of an array pool do not record the batch size: a fresh pool that '
+                      'is named like an older one (the default name depends only on the seed) '
+                      'would slice the older pool\'s rows with its own batch size and serve them '
+                      'as batches it holds - the results differ from the run without a pool')
+def c05_l(ctx):
+    cls = ctx.cls(_POOL)
+    n = 0
+    for m in cls.methods.values():
+        sts = [s for (s, t, k) in ctx.stores(m, 'self.name', include_mutators=False)
+               if isinstance(s, ast.Assign)]
+        if not sts or m.is_setter:
+            continue
+        ex = ctx.ex(m)
+        refusals = []
+        for r in ctx.stmts(m, ast.Raise):
+            for (t, pol, tn) in ctx.guards(m, r):
+                if pol and match(t, pattern('os.path.exists(self.path)')) is not None:
+                    refusals.append((r, tn))
+        cfg = cfg_of(m)
+        for s in sts:
+            n += 1
+            tests = [cfg.node_of(tn) if not hasattr(tn, 'succ') else tn for (_r, tn) in refusals]
+            tests = [t for t in tests if t is not None]
+            ok = bool(tests) and ctx.must_follow(m, s, [t.ast if hasattr(t, 'ast') else t
+                                                        for t in tests])
+            ctx.check(ok, m, 'naming is followed by the existing-path refusal',
+                      'self.name = ...; if os.path.exists(self.path): raise',
+                      '`{}` gives the pool a name and no test of os.path.exists(self.path) that '
+                      'raises follows on every path: an existing directory of that name is '
+                      'adopted silently'.format(src(s)[:60]), fn=m, node=s)
+    if n < 2:
+        raise AnchorMissing('expected the constructor and the context setter to name the pool, '
+                            'found {} naming site(s)'.format(n))
